@@ -195,3 +195,88 @@ def slot_obligations(record):
                 if t.value.attr != want:
                     problems.append(f"cache slot {t.value.attr} is not {want}")
     return problems
+
+
+# ---------------------------------------------------------------------------------------------
+# closedness (C17): every name and dotted reference in a generated text resolves, on all paths
+# ---------------------------------------------------------------------------------------------
+import builtins as _builtins
+
+
+def _locals_of(fn):
+    names = {a.arg for a in fn.args.posonlyargs + fn.args.args + fn.args.kwonlyargs}
+    if fn.args.vararg:
+        names.add(fn.args.vararg.arg)
+    if fn.args.kwarg:
+        names.add(fn.args.kwarg.arg)
+    for n in ast.walk(fn):
+        if isinstance(n, ast.Name) and isinstance(n.ctx, (ast.Store, ast.Del)):
+            names.add(n.id)
+        elif isinstance(n, ast.ExceptHandler) and n.name:
+            names.add(n.name)
+        elif isinstance(n, (ast.FunctionDef,)) and n is not fn:
+            names.add(n.name)
+    return names
+
+
+def _closed_expr(node, local_names):
+    """an expression built only from global names, attributes, subscripts, constants, tuples"""
+    for n in ast.walk(node):
+        if isinstance(n, ast.Name):
+            if n.id in local_names:
+                return False
+        elif not isinstance(n, (ast.Attribute, ast.Subscript, ast.Constant, ast.Tuple, ast.List, ast.Load, ast.Starred, ast.Slice)):
+            return False
+    return True
+
+
+def closedness_problems(record):
+    """static obligations over *all* syntactic positions (not only executed paths):
+    (1) every loaded name is a local, a key of the recorded globals/locals, or a builtin;
+    (2) every closed reference expression (dotted names, subscripted type expressions - the
+        arguments of error-path constructors among them) evaluates in the recorded namespace."""
+    problems = []
+    try:
+        mod = ast.parse(record.text)
+    except SyntaxError as e:
+        return [f"generated text is not valid Python: {e.msg} (line {e.lineno})"]
+    g = record.globals if isinstance(record.globals, dict) else {}
+    l = record.locals if isinstance(record.locals, dict) else {}
+    top_defs = {n.name for n in mod.body if isinstance(n, ast.FunctionDef)}
+
+    def known(name, local_names):
+        return name in local_names or name in g or name in l or hasattr(_builtins, name) or name in top_defs
+
+    def check_scope(body_nodes, local_names, where):
+        seen_expr = set()
+        for stmt in body_nodes:
+            for n in ast.walk(stmt):
+                if isinstance(n, ast.Name) and isinstance(n.ctx, ast.Load) and not known(n.id, local_names):
+                    problems.append(f"{where}: name {n.id!r} (line {n.lineno}) resolves nowhere")
+            # maximal closed reference expressions
+            stack = [stmt]
+            while stack:
+                n = stack.pop()
+                if isinstance(n, (ast.Attribute, ast.Subscript)) and _closed_expr(n, local_names):
+                    src = ast.unparse(n)
+                    if src not in seen_expr:
+                        seen_expr.add(src)
+                        roots = {x.id for x in ast.walk(n) if isinstance(x, ast.Name)}
+                        if all((r in g or r in l or hasattr(_builtins, r)) for r in roots):
+                            try:
+                                eval(compile(ast.Expression(n), "<closedness>", "eval"), dict(g), dict(l))
+                            except Exception as e:  # noqa
+                                problems.append(f"{where}: reference {src!r} (line {getattr(n, 'lineno', '?')}) does not evaluate: {type(e).__name__}: {e}")
+                    continue
+                stack.extend(ast.iter_child_nodes(n))
+
+    for n in mod.body:
+        if isinstance(n, ast.FunctionDef):
+            check_scope(n.body, _locals_of(n), n.name)
+            for d in n.decorator_list:
+                check_scope([ast.Expr(d)], set(), n.name)
+            for d in n.args.defaults + [x for x in n.args.kw_defaults if x is not None]:
+                check_scope([ast.Expr(d)], set(), n.name + " (defaults)")
+        else:
+            check_scope([n], set(), "<module level>")
+    return problems
